@@ -509,6 +509,8 @@ def fold(t, env, calls=None):
                     return max(vals)
                 if last == "signum":
                     return (vals[0] > 0) - (vals[0] < 0)
+        if t[1].startswith("core::ops::range::RangeInclusive") and last == "new" and len(t[2]) == 2:
+            return {"start": _num(fold(t[2][0], env, calls)), "end": _num(fold(t[2][1], env, calls)), "exhausted": False}
         if t[1].endswith("::contains") and "ops::range::Range" in t[1] and len(t[2]) == 2:
             r = fold(t[2][0], env, calls)
             x = _num(fold(t[2][1], env, calls))
